@@ -135,10 +135,10 @@ impl MainState {
                 old(conn_state).user_state.source@, channels@, keys_opt, channels@.len() as int),
             r is Ok ==> join_post(*old(state), *final(state), self.config.max_joins, my_nick(*old(conn_state)), // @prop C07,C16,C04
                 old(conn_state).user_state.source@, channels@, keys_opt, channels@.len() as int),
-            sym(*final(state)), // @prop C04
+            sym(*final(state)), // @prop C04,C05
             chans_wf(*final(state)), // @prop C04,C08
             no_empty_chan(*final(state)), // @prop C16
-            wallops_wf(*final(state)), // @prop C11,C06
+            wallops_wf(*final(state)), // @prop C11,C06,C05
             counters_wf(*final(state)), // @prop C19
             senders_distinct(*final(state)), // @prop C02,C01
             conn_ok(*final(conn_state), *final(state)), // @prop C07
